@@ -2,6 +2,7 @@ import RPVerif.Lemmas.TmgrSched
 import RPVerif.Lemmas.RRBalance
 import RPVerif.Lemmas.BFUsage
 import RPVerif.Lemmas.BFConserve
+import RPVerif.Lemmas.BFStates
 import RPVerif.Gen.TmgrSched
 
 /-!
@@ -388,5 +389,93 @@ theorem C12_bulk_notification_witness :
     (bfPilotStates true  ⟨4, 4, 200⟩ bulkWitness [(1, some 4), (0, some 3)]).2.1 = [.fwd 7 1]
     ∧ (bfPilotStates false ⟨4, 4, 200⟩ bulkWitness [(1, some 4), (0, some 3)]).2.1 = []
     ∧ (bfPilotStates false ⟨4, 4, 200⟩ bulkWitness [(0, some 3), (1, some 4)]).2.1 = [.fwd 7 1] := by decide
+
+/-! ### one notification naming a pilot and its task (round 16) -/
+
+/-- what the pass of the task part starts from: the pilot states are those the pilot part recorded -/
+theorem mixed_task_part_window (c : BFCfg) (execVal : Nat) (s1 : S) (tus : List (Nat × Option Nat × Nat × Nat)) :
+    ∀ p ∈ fwdPids (bfStep c execVal s1 (.taskStates tus)).2.1, inWindow c (stateOf s1.pilots p) = true := by
+  intro p hp
+  simp only [bfStep] at hp
+  rcases hu : bfUpdateTasks execVal s1.pilots tus false with ⟨ps, r, e⟩
+  rw [hu] at hp
+  cases e with
+  | some e => simp [fwdPids] at hp
+  | none =>
+    cases r with
+    | false => simp [fwdPids] at hp
+    | true =>
+      simp only at hp
+      obtain ⟨_, pl, hf, _, ⟨v, hv, h1, h2⟩, _⟩ := C12_bf_window c { s1 with pilots := ps } p hp
+      have hst : stateOf ps p = stateOf s1.pilots p := by
+        have := bfUpdateTasks_state execVal tus s1.pilots false p
+        rw [hu] at this
+        exact this
+      rw [← hst]
+      simp only at hf
+      simp [stateOf, hf, hv, inWindow, h1, h2]
+
+/-- **C12 for a notification that names pilots and tasks**: with the order in which `_base_state_cb` digests them as the
+    translator reads it from the source (`Gen.bfStatesPilotsFirst`) and the loop of `update_pilots` as read
+    (`Gen.bfUpdateAnyEligible`), every pilot a task is forwarded to while the notification is handled - by the pass the
+    pilot part triggers or by the pass a finished task triggers - is, in the state the notification itself reports for
+    it, inside the backfilling window: no task is bound to a pilot the scheduler has just been told is final -/
+theorem C12_mixed_window (c : BFCfg) (execVal : Nat) (s : S) (ups : List (Nat × Option Nat))
+    (tus : List (Nat × Option Nat × Nat × Nat)) :
+    ∀ p ∈ fwdPids (bfMixed Gen.bfUpdateAnyEligible Gen.bfStatesPilotsFirst c execVal s ups tus).2.1,
+      inWindow c (stateOf (touchAll s.pilots ups).1 p) = true := by
+  have e1 : Gen.bfUpdateAnyEligible = true := by decide
+  have e2 : Gen.bfStatesPilotsFirst = true := by decide
+  rw [e1, e2]
+  intro p hp
+  simp only [bfMixed, if_true] at hp
+  -- the pilot part
+  have hpart : ∀ q ∈ fwdPids (bfPilotStates true c s ups).2.1, inWindow c (stateOf (touchAll s.pilots ups).1 q) = true := by
+    intro q hq
+    unfold bfPilotStates at hq
+    rcases hta : touchAll s.pilots ups with ⟨ps, ch⟩
+    rw [hta] at hq
+    simp only
+    by_cases htr : bfTrigger true c ps ch = true
+    · simp only [htr, if_true] at hq
+      obtain ⟨_, pl, hf, _, ⟨v, hv, h1, h2⟩, _⟩ := C12_bf_window c { s with pilots := ps } q hq
+      simp only at hf
+      simp [stateOf, hf, hv, inWindow, h1, h2]
+    · simp only [htr] at hq
+      simp [fwdPids] at hq
+  have hstate : ∀ q, stateOf (bfPilotStates true c s ups).1.pilots q = stateOf (touchAll s.pilots ups).1 q := by
+    intro q
+    unfold bfPilotStates
+    rcases hta : touchAll s.pilots ups with ⟨ps, ch⟩
+    simp only
+    by_cases htr : bfTrigger true c ps ch = true
+    · simp only [htr, if_true]
+      exact bfSchedule_state c { s with pilots := ps } q
+    · simp only [htr]
+      rfl
+  rcases hps : bfPilotStates true c s ups with ⟨s1, o1, e⟩
+  rw [hps] at hp hpart hstate
+  cases e with
+  | some e => exact hpart p hp
+  | none =>
+    simp only at hp
+    rcases hts : bfStep c execVal s1 (.taskStates tus) with ⟨s2, o2, e'⟩
+    rw [hts] at hp
+    simp only [fwdPids, filterMap_append, mem_append] at hp
+    rcases hp with hp | hp
+    · exact hpart p hp
+    · have := mixed_task_part_window c execVal s1 tus p (by rw [hts]; exact hp)
+      rw [← hstate p]
+      exact this
+
+/-- the order matters: pilot 0 (4 cores, at its high-water mark, tasks 4 waits) is reported DONE together with its task 0
+    finished.  Pilots first: nothing is forwarded.  Tasks first: the pass the finished task triggers still sees pilot 0
+    active and binds the waiting task to it. -/
+def mixedWitness : S :=
+  { pilots := [⟨0, .added, some 4, true, 2, 4, 4, [0, 1, 2, 3], []⟩], pids := [0], wait := [⟨4, none, 1⟩] }
+
+theorem C12_mixed_window_witness :
+    (bfMixed true true  ⟨4, 4, 200⟩ 10 mixedWitness [(0, some 5)] [(0, some 0, 13, 1)]).2.1 = []
+    ∧ (bfMixed true false ⟨4, 4, 200⟩ 10 mixedWitness [(0, some 5)] [(0, some 0, 13, 1)]).2.1 = [.fwd 4 0] := by decide
 
 end RPVerif.C12
